@@ -320,6 +320,16 @@ pub fn run_conv(w: &[&str]) -> String {
                 None => bad(),
             }
         }
+        // `BigDecimal` with an `i64` exponent: the scale must fit the protocol's `i32` (serialize/value.rs:142-155)
+        Some("ser_bigdecimal") => {
+            let (Some(scale), Some(b)) = (num(1), w.get(2).and_then(|h| unhex(h))) else { return bad() };
+            let x = bigdecimal_04::BigDecimal::new(bigdecimal_04::num_bigint::BigInt::from_signed_bytes_be(&b), scale);
+            let mut buf = Vec::new();
+            match x.serialize(&ColumnType::Native(NativeType::Decimal), CellWriter::new(&mut buf)) {
+                Ok(_) => hex(&buf),
+                Err(e) => ser_kind(&e),
+            }
+        }
         Some("chrono_date") => {
             let Some(days) = num(1) else { return bad() };
             match chrono_04::NaiveDate::from_num_days_from_ce_opt((days + 719_163) as i32) {
@@ -336,7 +346,7 @@ pub fn generate_conv(rng: &mut Rng, n: u64, emit: &mut dyn FnMut(String)) {
     emit("conv bounds".to_owned());
     // the external carriers' own decoders (through DeserializeValue), overflow arms included
     for _ in 0..n / 2 {
-        match rng.below(7) {
+        match rng.below(8) {
             0 | 1 => {
                 let centre = 1i64 << 31;
                 let d = match rng.below(4) {
@@ -366,6 +376,15 @@ pub fn generate_conv(rng: &mut Rng, n: u64, emit: &mut dyn FnMut(String)) {
                     _ => rng.next() as i64,
                 };
                 emit(format!("conv {} {}", if rng.bool() { "de_chrono_time" } else { "de_time_time" }, x))
+            }
+            6 => {
+                let scale = match rng.below(4) {
+                    0 => *rng.pick(&[i32::MAX as i64, i32::MAX as i64 + 1, i32::MIN as i64, i32::MIN as i64 - 1, i64::MAX, i64::MIN, 0]),
+                    1 => rng.range(-300, 300),
+                    2 => rng.range(-(1 << 33), 1 << 33),
+                    _ => rng.next() as i64,
+                };
+                emit(format!("conv ser_bigdecimal {} {}", scale, hex(&gen_varint_bytes(rng))))
             }
             _ => {
                 let secs = if rng.chance(1, 3) { 86_399 } else { rng.below(1440) * 60 + 59 };
@@ -423,8 +442,13 @@ pub fn generate_conv(rng: &mut Rng, n: u64, emit: &mut dyn FnMut(String)) {
                     2 => rng.range(-100_000, 100_000),
                     _ => rng.range(-8_000_000_000_000_000, 8_000_000_000_000_000),
                 };
-                // chrono's own range is not modelled: keep it inside
-                let ms = if i % 11 == 9 { ms.clamp(-8_000_000_000_000_000, 8_000_000_000_000_000) } else { ms };
+                let ms = if rng.chance(1, 6) {
+                    *rng.pick(&[-8_334_601_228_800_000i64, -8_334_601_228_800_001, 8_210_266_876_799_999, 8_210_266_876_800_000, i64::MAX, i64::MIN])
+                } else if rng.chance(1, 6) {
+                    rng.next() as i64
+                } else {
+                    ms
+                };
                 emit(format!("conv {} {}", if i % 11 == 5 { "cql_time_odt" } else { "cql_chrono_dt" }, ms))
             }
             6 => {
